@@ -136,6 +136,7 @@ pub fn parse_case(case: &Value) -> Value {
 }
 
 fn build_dump<S: Store>(pr: &ParseResult, prefix: bool) -> Value {
+    garnish_lang::compiler::verif::reset();
     let r = guarded(|| {
         let mut data = S::fresh(Host::default());
         if prefix {
@@ -179,11 +180,14 @@ fn build_dump<S: Store>(pr: &ParseResult, prefix: bool) -> Value {
         Ok::<Value, String>(json!({"store": S::name(), "status": "ok", "ibase": ibase, "jbase": jbase, "dbase": dbase, "dlen": data.get_data_len(), "entry": *bd.jump_index() as i64,
                  "ins": ins, "jumps": jumps, "meta": meta, "exprs": exprs, "nnodes": pr.get_nodes().len(), "prefix_consts": consts}))
     });
-    match r {
+    let pops = garnish_lang::compiler::verif::counters().1.min(2_000_000_000);
+    let mut v = match r {
         Err(m) => json!({"store": S::name(), "status": "panic", "msg": m}),
         Ok(Err(m)) => json!({"store": S::name(), "status": "setuperr", "msg": m}),
         Ok(Ok(v)) => v,
-    }
+    };
+    v["pops"] = json!(pops);
+    v
 }
 
 /// case: {"src"} | {"input"} | {"tokens"}; "dump": bool (instruction / metadata dumps), "prefix": bool
@@ -210,6 +214,7 @@ pub fn compile_case(case: &Value) -> Value {
     if case["dump"].as_bool().unwrap_or(false) {
         o["toks"] = json!(tokens_json(&toks));
     }
+    garnish_lang::compiler::verif::reset();
     let pr = match guarded(|| parse(&toks)) {
         Err(m) => {
             o["stage"] = json!("parse");
@@ -229,6 +234,8 @@ pub fn compile_case(case: &Value) -> Value {
         o["root"] = json!(pr.get_root());
         o["nodes"] = json!(nodes_json(&pr));
     }
+    o["walk"] = json!(garnish_lang::compiler::verif::counters().0.min(2_000_000_000));
+    o["nnodes"] = json!(pr.get_nodes().len());
     let prefix = case["prefix"].as_bool().unwrap_or(true);
     let builds = vec![build_dump::<SimpleD>(&pr, prefix), build_dump::<BasicN>(&pr, prefix)];
     let all_ok = builds.iter().all(|b| b["status"] == "ok");
@@ -237,7 +244,7 @@ pub fn compile_case(case: &Value) -> Value {
     if case["dump"].as_bool().unwrap_or(false) {
         o["builds"] = json!(builds);
     } else {
-        o["builds"] = json!(builds.iter().map(|b| json!({"store": b["store"], "status": b["status"], "msg": b["msg"]})).collect::<Vec<_>>());
+        o["builds"] = json!(builds.iter().map(|b| json!({"store": b["store"], "status": b["status"], "msg": b["msg"].as_str().unwrap_or(""), "pops": b["pops"]})).collect::<Vec<_>>());
     }
     o
 }
